@@ -1,2 +1,4 @@
 //! h-programs: shared pieces for the property drivers (each driver is a binary under src/bin/).
 pub mod util;
+pub mod stubs;
+pub mod eutil;
